@@ -84,6 +84,8 @@ type Chain struct {
 	Cfg      GenesisCfg
 	LastHash []byte
 	LastBegin abci.ResponseBeginBlock
+	LastEnd   abci.ResponseEndBlock
+	LastTx    *abci.ResponseDeliverTx
 }
 
 func mkAccount(i int) Account {
@@ -260,6 +262,7 @@ func (c *Chain) EndBlock() (res string, resp abci.ResponseEndBlock) {
 		}
 	}()
 	resp = c.App.EndBlock(abci.RequestEndBlock{Height: c.Height})
+	c.LastEnd = resp
 	return "ok", resp
 }
 
@@ -287,6 +290,8 @@ func (c *Chain) Deliver(signer int, msgs ...sdk.Msg) (ok bool, resp abci.Respons
 		return false, abci.ResponseDeliverTx{Code: 997, Log: err.Error()}
 	}
 	resp = c.App.DeliverTx(abci.RequestDeliverTx{Tx: bz})
+	r2 := resp
+	c.LastTx = &r2
 	return resp.Code == 0, resp
 }
 
